@@ -1280,7 +1280,11 @@ val is_nz_const : z -> expr -> bool
 
 val nonzero_in : z -> sst1 -> expr -> bool
 
+val is_bot : sst1 -> bool
+
 val entails : z -> sst1 -> facts -> bool
+
+val once_exit : z -> sst1 -> z -> sst1
 
 val is_const : expr -> bool
 
@@ -1298,13 +1302,14 @@ val tv_block :
   nat -> z -> bool -> binstr list -> instr list -> z -> z -> sst1 -> cert
   list -> ((z * sst1) * cert list) option
 
-val st0 : sst1
+val st0 : z list -> sst1
 
 val tvsize : instr -> nat
 
 val isize : instr list -> nat
 
-val tv_check : z -> bool -> block -> binstr list -> cert list -> bool
+val tv_check :
+  z -> bool -> block -> binstr list -> z list -> cert list -> bool
 
 type kind =
 | KPrintIr
